@@ -163,21 +163,26 @@ class ZoneRegistrar {
      */
     static uint16_t binarySearchByName(const ZI* const* registry,
         uint16_t registrySize, const char* name) {
+      // Search the half-open interval [a, b).
       uint16_t a = 0;
-      uint16_t b = registrySize - 1;
+      uint16_t b = registrySize;
       const ZRB zoneRegistry(registry);
       while (true) {
-        uint16_t c = (a + b) / 2;
+        uint16_t diff = b - a;
+        if (diff == 0) break;
+
+        uint16_t c = a + diff / 2;
         const ZI* zoneInfo = zoneRegistry.zoneInfo(c);
         int8_t compare = STRCMP_P(name, ZIB(zoneInfo).name());
-        if (compare == 0) return c;
-        if (a == b) return kInvalidIndex;
         if (compare < 0) {
-          b = c - 1;
-        } else {
+          b = c;
+        } else if (compare > 0) {
           a = c + 1;
+        } else {
+          return c;
         }
       }
+      return kInvalidIndex;
     }
 
     /** Find the registry index corresponding to id using linear search. */
